@@ -257,6 +257,55 @@ var wlTermination = Workload{
 	},
 }
 
+// ---- send faults: a gateway->client datagram write fails somewhere in the history, then a termination cause ----
+
+type faultCase struct {
+	h     int
+	cut   int  // the fault is armed after `cut` steps
+	all   bool // every later write fails / only the next one
+	cause string
+}
+
+func faultCases() []faultCase {
+	var out []faultCase
+	for hi, h := range baseHistories() {
+		if h.name == "stalled-broker" {
+			continue
+		}
+		for cut := 0; cut < len(h.steps); cut++ {
+			for _, all := range []bool{false, true} {
+				for _, cz := range []string{"shutdown", "broker-close", "client-disconnect"} {
+					out = append(out, faultCase{hi, cut, all, cz})
+				}
+			}
+		}
+	}
+	return out
+}
+
+// wlSendFault: whole base history with a failing send armed at one point, two more seconds, then the cause.
+var wlSendFault = Workload{
+	Name: "send-fault",
+	N:    func(r *rt.Run) int { return len(faultCases()) },
+	Run: func(t *testing.T, c *rt.Case, i int, rng *rand.Rand) *GWRun {
+		fc := faultCases()[i]
+		h := baseHistories()[fc.h]
+		steps := append([]Step{}, h.steps[:fc.cut]...)
+		f := Step{Kind: "fail-sends"}
+		if fc.all {
+			f.D = 1
+		}
+		steps = append(steps, f)
+		steps = append(steps, h.steps[fc.cut:]...)
+		steps = append(steps, advStep(2*time.Second))
+		steps = append(steps, causeSteps(fc.cause)...)
+		g := runScript(t, c, h.cfg, h.bcfg, h.po, steps, 130*time.Second, nil)
+		g.Desc = fmt.Sprintf("%s/send-fault@%d/all=%v/%s", h.name, fc.cut, fc.all, fc.cause)
+		g.Extra = map[string]interface{}{"cause": fc.cause, "history": h.name, "cut": fc.cut, "send_fault": true}
+		return g
+	},
+}
+
 // wlExhaustion drives the topic-ID space to exhaustion with SUBSCRIBEs.
 var wlExhaustion = Workload{
 	Name: "exhaustion",
